@@ -5,6 +5,33 @@ V = os.path.dirname(os.path.dirname(os.path.abspath(__file__)))
 props = [json.loads(l) for l in open(os.path.join(V, "properties.jsonl"))]
 
 CLAIMS = {
+ "C09": dict(
+   text="DecompMap.tla walks the map the real decompilers recorded (ExplorerScript structured + fallback, SsbScript), joined with the word found "
+        "at the recorded position in the emitted text and with the lines the real compiler's source map gives when the text is compiled again: "
+        "every key is an input op, the position is the start of the statement printed for that opcode (surface table per opcode family), every "
+        "reachable op printed as its own statement has an entry, uniquely identifiable ops sit on the same line in both maps.",
+   ref="§3 C09", technique="TLC validation of recorded decompile-time source maps against the DecompMap.tla walker (entries, coverage, recompiled lines)",
+   note="C02's families incl. multi-line string parameters; inputs of C02's structurally mis-decompiled shapes are skipped for the structured path"),
+ "C16": dict(
+   text="Respell.tla lists exactly the meaning-preserving re-spellings (separator alphabet with the CanAbut table, sigils, legacy routine targets, "
+        "trailing commas, integer bases, decimal zeros, quote styles). Chains of re-spellings applied to real programs are compiled step by step with "
+        "the real compiler; TLC validates every chain: each step is an enabled action of the spec and the digest of ops / routine table / "
+        "position-mark values never changes. Plus every separator at every token boundary of some seeds.",
+   ref="§3 C16", technique="TLC trace validation of recorded re-spelling chains against the Respell.tla action system",
+   note="sampled seeds and chains; conservative CanAbut"),
+ "C17": dict(
+   text="PygLexer.tla transcribes Pygments' RegexLexer loop over the lexer's rule table; TLC lexes all strings <=3/4 over a 20-character "
+        "alphabet (Progress, Lossless, NoError) and consumes, token by token, the token streams the REAL lexer produced for those strings, "
+        "for compiler-accepted and rejected programs and random unicode text (lossless, no Error token on accepted sources); model/real "
+        "token-stream agreement is recorded as drift.",
+   ref="§3 C17", technique="TLC exploration of a TLA+ model of the RegexLexer loop + token-by-token validation of real lexer output",
+   note="bounded alphabet/length for the model; termination judged by a 10 s hard limit; weakest fit for the technique (pure function)"),
+ "C18": dict(
+   text="The harness writes sources token by token, recording where it put every `Position` word and closing `>`; PosMarks.tla walks the real "
+        "listing against that record (order, count, start, end, fields via the specified coordinate reader, equality with the compiled parameter) "
+        "and checks every in-place edit of the listed span: exactly the parameter(s) of that literal change, to the new mark.",
+   ref="§3 C18", technique="TLC validation of recorded position-mark listings and in-place edits against PosMarks.tla",
+   note="sampled placements (arguments, macro bodies and call arguments, switch/condition operation arguments, nested blocks, multi-line literals)"),
  "C08": dict(
    text="SrcMapEquiv.tla is the source x bytecode product in which every op carries the source-map entry the real compiler recorded; TLC checks "
         "at every Sync that the entry is the one the position tables prescribe (direct: statement / condition / switch / case header start; macro: "
